@@ -268,6 +268,8 @@ def main(tier, seed):
     names = ["Base", "CTiny", "CLit", "CSeedA", "CSeedB", "CSub", "CCtrl", "CTags", "CLitX1", "CLitX2", "CLitXc", "CLitXvc", "CX1"]
     if tier == "thorough":
         names += ["CX2", "CTinyLit"]
+    else:
+        names.remove("CX1")
     order = list(names)
     chk.rng.shuffle(order)
     histories = {
@@ -281,15 +283,15 @@ def main(tier, seed):
     if lead_asis:
         histories["lead-asis"] = as_history(lead_asis)
     # the magic what-if's history is replayed on the real code too: it must NOT reproduce (regression guard for F20)
-    if lead_magic:
-        histories["lead-magic"] = as_history(lead_magic)
-    if lead_own:
-        histories["lead-ownkey"] = as_history(lead_own)
+    if lead_magic and tier == "thorough":
+        histories["lead-magic"] = as_history(lead_magic)          # quick: covered by the rt-tag history below
+    if lead_own and tier == "thorough":
+        histories["lead-ownkey"] = as_history(lead_own)          # quick: covered by the bodyedit history below
     # a tag that selects other files of package runtime, back and forth (kept out of the long histories)
-    histories["rt-tag"] = [("build", "Base"), ("build", "CTagsRt"), ("build", "Base"), ("build", "CTagsRt"), ("build", "CTagsRt")]
+    histories["rt-tag"] = [("build", "Base"), ("build", "CTagsRt"), ("build", "Base")] + ([("build", "CTagsRt"), ("build", "CTagsRt")] if tier == "thorough" else [])
     # body edit of an indirect dependency under the default configuration and under -seed
-    histories["bodyedit"] = [("build", "Base"), ("build", "CSeedA"), ("build", "CSeedTiny"), ("edit", "leaf", "body"),
-                             ("build", "Base"), ("build", "CSeedA"), ("build", "CSeedTiny")]
+    bcfgs = ["Base", "CSeedA"] + (["CSeedTiny"] if tier == "thorough" else [])
+    histories["bodyedit"] = [("build", c) for c in bcfgs] + [("edit", "leaf", "body")] + [("build", c) for c in bcfgs]
     if tier == "thorough":
         for i in range(3):
             h = []
@@ -310,7 +312,7 @@ def main(tier, seed):
                 rep.build(CFGS[step[1]])
         rmtree(rep.sb.root)
 
-    parallel(replay, list(histories), workers=3)
+    parallel(replay, list(histories), workers=4)
 
     # which (cfg, edits) pairs need an isolated cold reference?
     groups = {}
